@@ -22,4 +22,11 @@
 #
 from __future__ import annotations
 
+import sys
+
 EXPLORERSCRIPT_EXT = ".exps"
+
+# The parser, the compiler and the decompiler all recurse over nested blocks. The limit is raised here and not in one of
+# them, so that whether a deeply nested script can be processed does not depend on which modules were imported before.
+if sys.getrecursionlimit() < 10000:
+    sys.setrecursionlimit(10000)
